@@ -358,6 +358,24 @@ func evalC14(c *engine.Case) engine.Verdict {
 	}
 	checkSet(&v, "Input()", f.Input(), wantIn)
 	checkSet(&v, "Output()", f.Output(), wantOut)
+	if v.Fail == "" {
+		// what a Func reports does not depend on what it has been used for:
+		// as a converter of a call, as the target of a call and of a
+		// Redefine (outcomes irrelevant), then inspected again
+		engine.Protect(&o, func() {
+			other, oerr := argmapper.NewFunc(func() {})
+			if oerr == nil {
+				other.Call(argmapper.ConverterFunc(f), engine.Quiet())
+			}
+			f.Call(engine.Quiet())
+			f.Redefine(engine.Quiet())
+		})
+		if o.Panic == "" {
+			checkSet(&v, "after the function was used, Input()", f.Input(), wantIn)
+			checkSet(&v, "after the function was used, Output()", f.Output(), wantOut)
+			v.Class("inspected-again-after-use")
+		}
+	}
 
 	nt := x.Static >= 0
 	for _, s := range []SigSide{x.In, x.Out} {
